@@ -182,7 +182,7 @@ def boxRank (stops : List Rat) (b : BoxM) : Nat := (b.map (Itv.rank stops)).fold
 
 /-- dimension of the lineality space of a non-empty polyhedron: `n − rank` of its coefficient rows -/
 def linDim (n : Nat) (cs : List Con) : Nat :=
-  n - rankRows (cs.map fun c => (padTo n c.coeffs).map fun (a : Int) => (a : Rat)) 0 n
+  eqFree (List.range n) (cs.map fun c => ({ c with k := 0, strict := false } : Con))
 
 /-- some strict row supports the closure in a face that is not a facet -/
 def hasNonFacetStrict (n : Nat) (cs : List Con) : Bool :=
